@@ -88,7 +88,7 @@ Spec == Init /\ [][Next]_mcvars
 
 \* --- properties
 HeaderBitsFollowHistory == hdr = exp
-AdrCounterIsSilentUplinks == m.sess.adrCnt = silent
+AdrCounterIsSilentUplinks == AdrVal(m.sess.adrCnt) = silent
 DataRateOnlyStepsAtThresholds == m.cfg.dr = drAuto
 AckOwedMatches == m.sess.ackOwed = confOwed
 CounterNeverRewinds == [][~CntLt(m'.sess.up, m.sess.up)]_mcvars
